@@ -18,6 +18,7 @@ S = ber.bstr
 
 # SearchResultDone with result code 3 and a referral of its own (as in the symbolic script)
 DONE_REF = {'cl': 1, 'id': 5, 'c': [{'cl': 0, 'id': 10, 'p': [3]}, {'cl': 0, 'id': 4, 'p': []}, {'cl': 0, 'id': 4, 'p': []}, {'cl': 2, 'id': 3, 'c': [{'cl': 0, 'id': 4, 'p': list(b'ldap://done/')}]}]}
+MORE_SCRIPTS = ['EEED', 'RRED', 'IIED', 'EREX', 'ERIEID', 'RX']          # thorough tier
 SCRIPTS = ['ED', 'ERID', 'D', 'EX', 'RED', 'ID', 'X', 'EED']       # E entry, R reference, I intermediate, D done, X channel closed
 
 
@@ -35,12 +36,13 @@ def poll(c, coro):
 class StreamMachine(Lane):
     name = 'C10.stream_state_machine'
 
-    def __init__(self, ctx, prop, maxcalls, adapters):
-        Lane.__init__(self, ctx, prop, maxcalls, adapters); self.prop = prop; self.maxcalls = maxcalls; self.adapters = adapters
+    def __init__(self, ctx, prop, maxcalls, adapters, scripts=None):
+        Lane.__init__(self, ctx, prop, maxcalls, adapters, scripts); self.prop = prop; self.maxcalls = maxcalls; self.adapters = adapters
+        self.scripts = list(scripts or SCRIPTS)
 
     def inputs(self):
         c = self.c
-        sc = SCRIPTS[c.choose(len(SCRIPTS), 'script')]
+        sc = self.scripts[c.choose(len(self.scripts), 'script')]
         n = 1 + c.choose(self.maxcalls, 'ncalls')
         calls = ['nfs'[c.choose(3, f'call{i}')] for i in range(n)]
         items = []
@@ -451,12 +453,12 @@ class TimedStream(Lane):
     ID and reports Timeout; a closed item channel is EndOfStream; finish() before the end scrubs, after it does not"""
     name = 'client.timed_stream'
 
-    def __init__(self, ctx, prop):
-        Lane.__init__(self, ctx, prop); self.prop = prop
+    def __init__(self, ctx, prop, maxn=3):
+        Lane.__init__(self, ctx, prop, maxn); self.prop = prop; self.maxn = maxn
 
     def inputs(self):
         c = self.c
-        n = 1 + c.choose(3, 'ncalls')
+        n = 1 + c.choose(self.maxn, 'ncalls')
         return {'timed': bool(c.choose(2, 'timed')), 'answers': [['item', 'done', 'elapsed', 'closed'][c.choose(4, f'ans{i}')] for i in range(n)], 'finish': bool(c.choose(2, 'finish'))}
 
     def execute(self, d):
@@ -567,12 +569,14 @@ class TimedStream(Lane):
 def extra_lanes(chk, pid):
     quick = chk.tier == 'quick'
     if pid == 'C10':
-        mc = 4 if quick else 6
-        run_lane(chk, StreamMachine, ('C10', mc, [None, 'EntriesOnly']), bounds={'item scripts': SCRIPTS, 'call sequences': f'every word over next/finish/state of length 1..{mc}', 'adapters': 'direct | EntriesOnly',
+        mc = 4 if quick else 7
+        scripts = SCRIPTS if quick else SCRIPTS + MORE_SCRIPTS
+        run_lane(chk, StreamMachine, ('C10', mc, [None, 'EntriesOnly'], scripts), bounds={'item scripts': scripts, 'call sequences': f'every word over next/finish/state of length 1..{mc}', 'adapters': 'direct | EntriesOnly',
                                                                                  'contents': 'entry/reference bytes, result code, control criticality symbolic'}, selftest=False, need_regions=('None', 'EntriesOnly'))
         run_lane(chk, SearchCollect, (), bounds={'item scripts': ['ED', 'ERIED', 'D', 'RD', 'EX'], 'contents': 'symbolic'}, selftest=False, need_regions=('ERIED', 'EX'))
     if pid in ('C04', 'C12', 'C13'):
         run_lane(chk, OpCall, (pid,), bounds={'reply wait': 'timed or not', 'request channel': 'open | closed', 'answer': 'reply | reply channel closed | timer elapsed', 'scrub channel': 'open | closed'}, selftest=False,
                  need_regions=('reply', 'closed', 'elapsed+timed'))
-        run_lane(chk, TimedStream, (pid,), bounds={'calls to next()': '1..3', 'answer per item wait': 'item | done | timer elapsed | channel closed', 'per-item timeout': 'set or not', 'finish() afterwards': 'yes | no'}, selftest=False,
+        tn = 3 if quick else 5
+        run_lane(chk, TimedStream, (pid, tn), bounds={'calls to next()': f'1..{tn}', 'answer per item wait': 'item | done | timer elapsed | channel closed', 'per-item timeout': 'set or not', 'finish() afterwards': 'yes | no'}, selftest=False,
                  need_regions=('timed:elapsed', 'timed:item', 'closed'))
